@@ -462,9 +462,8 @@ func init() {
 		Reuse: func() func(in []byte) Result {
 			var P fourq.Point
 			return func(in []byte) Result {
-				var buf, out [32]byte
-				copy(buf[:], in)
-				if !P.Unmarshal(&buf) {
+				var out [32]byte
+				if !P.Unmarshal((*[32]byte)(in)) { // the caller's memory itself, not a copy
 					return Result{}
 				}
 				P.Marshal(&out)
@@ -473,9 +472,8 @@ func init() {
 		},
 		Call: func(in []byte) Result {
 			var P fourq.Point
-			var buf, out [32]byte
-			copy(buf[:], in)
-			if !P.Unmarshal(&buf) {
+			var out [32]byte
+			if !P.Unmarshal((*[32]byte)(in)) {
 				return Result{}
 			}
 			P.Marshal(&out)
@@ -489,10 +487,10 @@ func init() {
 			return fourqValid(seed)
 		},
 		Call: func(in []byte) Result {
-			var pub, sec, sh curve4q.Key
-			copy(pub[:], in)
+			var sec, sh curve4q.Key
+			pub := (*curve4q.Key)(in) // the caller's memory itself, not a copy
 			copy(sec[:], seedBytes(4242, 32))
-			if !curve4q.Shared(&sh, &sec, &pub) {
+			if !curve4q.Shared(&sh, &sec, pub) {
 				return Result{}
 			}
 			// the shared point must be a non-identity point of the prime-order subgroup: N*S = O
